@@ -123,6 +123,8 @@ type fdSide struct {
 	pureFns map[types.Object]bool
 	// positions where a run is not read as a table: the other side has none to compare it with
 	noTableAt map[token.Pos]bool
+	// findings of the walk that are reported in their own words (rules_t8c10.go)
+	notes []fdNote
 }
 
 // fdSingleDefs finds the locals of fd that are defined exactly once by a 1:1
@@ -1436,6 +1438,10 @@ func (w *fdWalker) stmts(list []ast.Stmt, chain []fdCond) bool {
 				}
 			}
 		}
+		// a guard that leaves the function and changes nothing (rules_t8c10.go)
+		if w.neutralExit(list, i) {
+			continue
+		}
 		w.errTemp(list, i)
 		dead, guards := w.stmt(st, chain)
 		if dead {
@@ -2080,6 +2086,8 @@ type fdResult struct {
 	Tables map[string][2]int
 	// functions on one side only that are pure helpers over integers / booleans ("side:name")
 	FuncsPure []string
+	// findings reported in their own words (rules_t8c10.go)
+	Notes []fdNote
 }
 
 // ForkDiff compares the fork package with the upstream package.
@@ -2399,6 +2407,11 @@ func ForkDiff(fork, up *packages.Package, files map[string]bool, laxObjs map[typ
 	}
 	sort.Strings(res.FuncsOnlyFork)
 	sort.Strings(res.FuncsOnlyUp)
+	for _, n := range fs.notes {
+		n.Fork = true
+		res.Notes = append(res.Notes, n)
+	}
+	res.Notes = append(res.Notes, us.notes...)
 	return res
 }
 
